@@ -962,6 +962,21 @@ func (a *Act) load(st *State, p Val, pos token.Pos) Val {
 	return a.loadAt(st, p.S, et)
 }
 
+// chanTypeFact: a non-nil channel value has the element type of its static type (channels of different element types
+// are different channels). chanty is an uninterpreted function from channel addresses to element-type numbers.
+func (a *Act) chanTypeFact(st *State, v Val) {
+	if v.T == nil || v.S == "" || v.Sort != sInt {
+		return
+	}
+	ct, ok := v.T.Underlying().(*types.Chan)
+	if !ok {
+		return
+	}
+	a.vc.g.decl("fun chanty", "(declare-fun chanty (Int) Int)")
+	id := a.eng.chanID("elemtype:" + ct.Elem().String())
+	a.vc.assume(st.guard, fmt.Sprintf("(=> (not (= %s 0)) (= (chanty %s) %s))", v.S, v.S, id))
+}
+
 // refFacts adds heap well-formedness facts for loaded references.
 func (a *Act) refFacts(st *State, v Val) {
 	if v.T == nil || v.S == "" {
@@ -974,6 +989,7 @@ func (a *Act) refFacts(st *State, v Val) {
 	switch v.T.Underlying().(type) {
 	case *types.Pointer, *types.Map, *types.Chan:
 		a.vc.assume(st.guard, fmt.Sprintf("(<= (base %s) %s)", v.S, st.top))
+		a.chanTypeFact(st, v)
 	case *types.Slice:
 		a.vc.assume(st.guard, fmt.Sprintf("(<= (base (sl_arr %s)) %s)", v.S, st.top))
 	case *types.Interface:
